@@ -35,7 +35,7 @@ Proof. exact rw_list_same. Qed.
 Print Assumptions c09_stream_carries_absolute_values.
 
 Example c09_example :
-  let col := mkcol true (λ a b, match a, b with V8 x, V8 y => V8 (x * 3 + y) | _, _ => b end) (V8 0) ∅ in
+  let col := mkcol true (λ a b, match a, b with V8 x, V8 y => V8 (x * 3 + y) | _, _ => b end) (V8 0) id ∅ in
   cells (fst (col_apply col [mkop KMerge 0 (V8 1); mkop KMerge 0 (V8 2)])) !! 0%N = Some (V8 5) ∧
   cells (fst (col_apply col [mkop KMerge 0 (V8 2); mkop KMerge 0 (V8 1)])) !! 0%N = Some (V8 7).
 Proof. vm_compute. done. Qed.
